@@ -45,7 +45,8 @@ CHECKS["C01"] = {
             "Part connect: two TCP allocations on a stream listener x policies {deny-B, deny-all, allow}, depth 3/4 over Connect A/B, CreatePermission, inbound peer connections, ConnectionBind, Refresh0: a refused Connect target is answered with an error and never dialled.",
     "parts": [A("vtx", "./checks/c01", "TestC01", budget={"quick": 90, "thorough": 1500}),
               A("bfs", "./checks/c01", "TestC01BFS", tiers=["thorough"], budget={"thorough": 1500}),
-              A("connect", "./checks/c01", "TestC01Connect", budget={"quick": 60, "thorough": 900})],
+              A("connect", "./checks/c01", "TestC01Connect", budget={"quick": 60, "thorough": 900}),
+              A("dual", "./checks/c01", "TestC01Dual", budget={"quick": 60, "thorough": 900})],
 }
 CHECKS["C02"] = {
     "level": "model_checking",
